@@ -196,6 +196,18 @@ CXX2C_UF2 (hypotf, float) CXX2C_UF2 (hypot, double)
 #define cxx2c_hypotf hypotf
 #define cxx2c_hypot hypot
 #endif
+/* RING mode trigonometry: std::cos / std::sin applied to the ring type (libstdc++'s integer overloads, whose double result the
+ * library immediately converts back to T) are one uninterpreted ring-valued function each: "the cosine VALUE as a ring element".
+ * Natively the real double function is called and the extracted code's own cast converts it, exactly as the C++ does. */
+#if defined(CXX2C_RING_TRIG) && !defined(VF_NATIVE)
+unsigned __CPROVER_uninterpreted_ringcos (unsigned);
+unsigned __CPROVER_uninterpreted_ringsin (unsigned);
+static inline unsigned cxx2c_ring_cos (unsigned x) { return __CPROVER_uninterpreted_ringcos (x); }
+static inline unsigned cxx2c_ring_sin (unsigned x) { return __CPROVER_uninterpreted_ringsin (x); }
+#else
+static inline double cxx2c_ring_cos (unsigned x) { return cos ((double) x); }
+static inline double cxx2c_ring_sin (unsigned x) { return sin ((double) x); }
+#endif
 /* exact functions: kept concrete in every mode */
 static inline float  cxx2c_fabsf (float x) { return x < 0.0f ? -x : (x == 0.0f ? 0.0f : x); }
 static inline double cxx2c_fabs (double x) { return x < 0.0 ? -x : (x == 0.0 ? 0.0 : x); }
